@@ -54,7 +54,8 @@ ASSUMPTIONS = [
     'RemoveMatch removes one instance or answers MatchRuleNotFound); each call is answered before the next event; '
     'signals are broadcast (no destination) and injected only if a held text stands for a rule the signal satisfies; '
     'what a text stands for is taken from the model (rule_string of the rules of the case) and the verdict from '
-    'Spec.MatchSpec; rules satisfy the hypotheses of C12_rule_string (a constraint present, no value with , or =); '
+    'Spec.MatchSpec; no rule value contains , or = ; the rule without constraints is included: its text is the empty '
+    'string, which the reference daemon takes as satisfied by every message; '
     'a client that reference-counts identical texts consistently on both AddMatch and RemoveMatch would keep the '
     'oracle quiet and show only as a correspondence difference of the calls written',
 ]
@@ -1391,6 +1392,22 @@ def gen_cdaemon_cases(ctx):
             if ev[-1][0] != 2:
                 ev += [[2, mA], [2, mB]]
             yield ['cdaemon', ev]
+    # the rule without any constraint (rule text ''): added, removed, re-added, signals in between
+    rC = list(EMPTY_RULE)
+    alphabet = [[0, rC, None], [0, rA, None], [1, 0], [1, 1], [1, 2], [2, mA], [2, mB]]
+    for n in range(1, L + 1):
+        for t in itertools.product(range(len(alphabet)), repeat=n):
+            if 0 not in t:
+                continue
+            ev = []
+            for j, x in enumerate(t):
+                e = list(alphabet[x])
+                if e[0] == 0:
+                    e[2] = [j, j % 3 == 2, []]
+                ev.append(e)
+            if ev[-1][0] != 2:
+                ev += [[2, mA], [2, mB]]
+            yield ['cdaemon', ev]
     for _ in range(ctx.n(600, 8000)):
         msgs = []
         while len(msgs) < rng.choice([1, 2, 3]):
@@ -1404,6 +1421,8 @@ def gen_cdaemon_cases(ctx):
             r = gen_rule_for(rng, rng.choice(msgs))
             if clean_rule(r):
                 rules.append(r)
+        if rng.random() < 0.3:
+            rules.append(list(EMPTY_RULE))
         ev = []
         nids = 0
         for j in range(rng.randrange(3, 13)):
@@ -1475,7 +1494,8 @@ def run(ctx, res):
                 're-entrant three-rule scenarios, random histories of 3..15 events (35%% with callbacks that call '
                 'delMatch / addMatch), the same through a real DBusClientConnection; (b2) client histories against the reference '
                 'daemon (multiset of rule texts): every history of length <= %d over {add A, add B, del 0, del 1, del 2, '
-                'signal A, signal B} containing an add (the same text registered repeatedly, instances removed), and random '
+                'signal A, signal B} containing an add (the same text registered repeatedly, instances removed), the same with '
+                'the catch-all rule (no constraint, text \'\') in place of B, and random '
                 'ones over 1-3 rules; (c) AddMatch texts read back by '
                 'the real Bus.dbus_AddMatch, and a malformed text stream; (d) proxy subscriptions: 8 declared '
                 'signatures x 8 bodies x cancelled or not, plus random. non-trivial = the rule has a constraint / a '
